@@ -417,9 +417,11 @@ impl World {
                     })
                     .collect();
                 if !self.real[*c].is_hot() {
-                    // nothing can be sent to a cache without reloader
+                    // A cache without reloader listens to nobody. A source whose configuration was
+                    // refused may still hold the sender it was given (`Hot::ConfigureFails`): it
+                    // keeps notifying, into the void.
                     if self.mems[*c].has_sender() {
-                        self.bad(rep, j, "sender-without-reloader", json!({"cache": c}));
+                        let _ = self.mems[*c].notify_batch(es);
                     }
                     return stats;
                 }
@@ -630,6 +632,8 @@ impl World {
 
         // --- judge every cached asset of this cache
         let mut moved_real: BTreeSet<Key> = BTreeSet::new();
+        // (key, handle's id, id handed out by the long-lived watcher, answer and id of a watcher created now)
+        let mut watcher_extra: Vec<(Key, u64, u64, bool, u64)> = vec![];
         for (key, obs) in &observed {
             let me = self.model.caches[c].entries[key].clone();
             let in_order = res.order.contains(key);
@@ -639,7 +643,15 @@ impl World {
                 Some(t) => {
                     let d = obs.rid as i64 - t.last_rid as i64;
                     t.last_rid = obs.rid;
+                    // the id a watcher hands out is the handle's current one, asked or not
+                    let watcher_id = rid_num(t.watcher.last_reload_id());
                     let w = t.watcher.reloaded();
+                    // a watcher created now has seen everything that happened so far
+                    // SAFETY: see `track`
+                    let mut late = unsafe { &*t.h }.reload_watcher();
+                    let late_said = late.reloaded();
+                    let late_id = rid_num(late.last_reload_id());
+                    watcher_extra.push((key.clone(), obs.rid, watcher_id, late_said, late_id));
                     // SAFETY: see `track`
                     let g = unsafe { &*t.h }.reloaded_global();
                     let pv = std::mem::replace(&mut t.value, obs.v.clone());
@@ -748,6 +760,19 @@ impl World {
                     }
                     rep.count("watcher_answers_checked", 2);
                 }
+            }
+        }
+        if j.precision {
+            for (key, rid, watcher_id, late_said, late_id) in &watcher_extra {
+                let keydesc = format!("{} {:?}", key.0.tag(), key.1);
+                if watcher_id != rid || late_id != rid {
+                    self.bad(rep, j, "watcher-last-reload-id", json!({"key": keydesc, "handle_last_reload_id": rid,
+                        "watcher_last_reload_id": watcher_id, "new_watcher_last_reload_id": late_id}));
+                }
+                if *late_said {
+                    self.bad(rep, j, "new-watcher-reports-old-reload", json!({"key": keydesc, "handle_last_reload_id": rid}));
+                }
+                rep.count("watcher_answers_checked", 2);
             }
         }
         // ---- attribution (C14): the set of moved ids is exactly the model's
